@@ -392,7 +392,11 @@ def vc_ne_end(prog, state_kind='edge', family='base'):
         cur = SymDict('cur_lattice', lambda it_, k: new_entry(it_), key_factory=lambda it_: it_.ctx.fresh('curkey', 'I'))
         st.update(lattice_best=lattice_best, cur=cur)
         ctx.assume(obs_idx >= 1)
-        return [matcher, cur, obs_idx, obs_next, lattice_best], {'expand': B('expand')}
+        # the rest of the shared state of the non-emitting search (by the names of _match_non_emitting_states): not handed to this
+        # function today; bound by name should the signature ask for it (frame clause below)
+        st['pool'] = {'lattice_ne': HavocColl('lattice_ne'), 'lattice_toinsert': HavocColl('lattice_toinsert'),
+                      'nb_ne': I('nb_ne'), 'obs': (R('oy'), R('ox'))}
+        return [matcher, cur, obs_idx, obs_next, lattice_best], {'expand': B('expand'), '$pool': st['pool']}
 
     def h_index_lattice(it, o, i):
         col = Obj('Column', idx=i)
@@ -457,6 +461,11 @@ def vc_ne_end(prog, state_kind='edge', family='base'):
         # writes into the next column's emitting layer
         g.append(('ne-end:next-column-written-only-through-upsert(keep-the-better)',
                   b2z(not any(e.kind == 'dictset' and e.d is not st['lattice_best'] for e in ctx.events))))
+        # frame: the candidate loop runs in the listing order of the map; lattice_best (keep-the-better, clauses above) and the
+        # next column (upsert) are the only shared state it may write - anything else written per candidate (e.g. the set of
+        # restrained edges) would record a TEMPORARY winner, i.e. the arrival order
+        g.append(('ne-end:frame(no other shared state of the search is written per candidate)',
+                  b2z(not any(getattr(v, 'mutations', None) for v in st['pool'].values()))))
         if calls and calls[0]['result'] is not None:
             r = calls[0]['result']
             g.append(('ne-end:at-most-one-upsert-of-the-candidate', b2z(len(ups) <= 1 and all(u.obj is r for u in ups))))
